@@ -10,6 +10,7 @@ R-C24.3   nested `with` blocks combine the enclosing context's flags.
 R-C24.4   dagger restrictions: loops, the three assignment kinds, subscripted places.
 R-C24.5   compiled functions record their flags (must-call add_unitarity_metadata).
 R-C24.6   the qubit finder never prunes the descent into a type.
+R-C24.8   the argument traversal of a call check is never short-circuited (c24_traversal.py).
 R-C24.7   flag plumbing: decorator kwargs -> definition -> CFG -> unitary pass.
 """
 
@@ -355,6 +356,10 @@ def run(ctx: Ctx) -> None:
           and not any(isinstance(n, (ast.Break, ast.Return, ast.Continue)) for st2 in loop.body for n in walk_no_nested(st2)))
     ctx.check(ok, "R-C24.7", f"{ccu.qualname}#all-blocks", ccu.where, {"loop_over": ast.unparse(loop.iter) if loop else None},
               "not every block of the CFG is checked, or not with the CFG's flags")
+
+    # ------------------------------------------------------------ R-C24.8 argument traversal is unconditional
+    from . import c24_traversal
+    c24_traversal.run(ctx)
 
 
 def _union_names(e: ast.expr) -> list[str]:
